@@ -435,6 +435,9 @@ func path(v ssa.Value, d int) string {
 		return path(x.X, d+1) + "." + fieldName(x.X.Type(), x.Field)
 	case *ssa.UnOp:
 		if x.Op == token.MUL {
+			if p := spilledParam(x.X); p != nil {
+				return ParamName(p)
+			}
 			return path(x.X, d+1)
 		}
 	case *ssa.IndexAddr:
@@ -843,4 +846,24 @@ func WorldEdge(n ssa.Value, val int64) EdgeFilter {
 		}
 		return succ == 1
 	}
+}
+
+// spilledParam: addr is a local cell that holds a parameter captured by a closure (go/ssa spills such
+// parameters into an Alloc at entry) and is never reassigned; returns that parameter.
+func spilledParam(addr ssa.Value) *ssa.Parameter {
+	al, ok := addr.(*ssa.Alloc)
+	if !ok || al.Referrers() == nil {
+		return nil
+	}
+	var prm *ssa.Parameter
+	for _, ref := range *al.Referrers() {
+		if st, ok := ref.(*ssa.Store); ok && st.Addr == al {
+			p, isParam := st.Val.(*ssa.Parameter)
+			if !isParam || prm != nil {
+				return nil
+			}
+			prm = p
+		}
+	}
+	return prm
 }
